@@ -236,13 +236,13 @@ pub const SIG_UNIFY_CYCLE: &str = "unsound=unify-cycle-arm-unchecked";
 pub const SIG_UNIFY_MERGE: &str = "unify=union-union-widened-binding-dropped"; // fixed e4496af
 pub const SIG_TABLE_TAIL: &str = "dispatch=tail-call-branch-never-in-table"; // fixed 7ed48d7
 pub const SIG_FIELD_COMPL: &str = "narrow=field-complement-on-union-scrutinee"; // fixed 1d5e1cb
-pub const SIG_FIELD_COMPL_TYPED: &str = "narrow=field-complement-then-typed-bind-claims-exhaustive";
+pub const SIG_FIELD_COMPL_TYPED: &str = "narrow=guard-forgets-own-field-test"; // fixed 18b909b
 pub const SIG_PARTIAL_PAT: &str = "pattern=partial-on-union-with-non-tuple-variant"; // fixed fbadbb2
 pub const SIG_REC_BACKREF: &str = "unsound=recursive-type-backreference-misresolved";
 pub const SIG_ALT_REC: &str = "narrow=alternation-over-recursive-type-subtracts-variants"; // fixed 8b75929
-pub const SIG_ALT: &str = "unsound=alternation-subtracts-whole-variant";
+pub const SIG_ALT: &str = "unsound=alternation-subtracts-whole-variant"; // fixed 8b75929 + e0ad7de
 pub const SIG_REPEATED: &str = "narrow=repeated-identifier-in-tuple-field-complement"; // fixed 45c5ceb
-pub const SIG_SINGLE_BINDER: &str = "unsound=single-binder-pattern-inherits-scrutinee-provenance";
+pub const SIG_SINGLE_BINDER: &str = "unsound=lone-binder-inside-pattern-whole-provenance"; // fixed cf8f770
 
 fn has_node(p: &Prog, f: &dyn Fn(&gen_::Node) -> bool) -> bool {
     fn go(n: &gen_::Node, f: &dyn Fn(&gen_::Node) -> bool) -> bool {
